@@ -94,7 +94,7 @@ CLAIMED = {
     "C17": {
         "engine": "box",
         "technique": "Coq proof (ownership bookkeeping of a Box model: drop once, no arena release, conversions preserve value and order, downcast iff tag) + differential execution against std::boxed::Box",
-        "text": "C17_drop_once_no_release / C17_into_inner_moves / C17_leak_never_drops / C17_new_one_alloc / C17_array_slice_roundtrip / C17_downcast_iff_tag / C17_life; generated scenarios (new_in, pin_in, into_inner, into_raw/from_raw, leak, downcast matching and not, Vec/boxed slice/array conversions, from_iter_in, zero-sized values, comparisons/hash/format/iterator forwarding) are run on bumpalo's Box and std's Box with a drop ledger, the arena's getters and the global-allocator log. Partial: the model is deliberately thin; trait forwarding is differential-only.",
+        "text": "C17_drop_once_no_release / C17_into_inner_moves / C17_leak_never_drops / C17_new_one_alloc / C17_array_slice_roundtrip / C17_downcast_iff_tag / C17_life; generated scenarios (new_in, pin_in, into_inner, into_raw/from_raw, leak, downcast matching and not, Vec/boxed slice/array conversions, from_iter_in, zero-sized values, comparisons/hash/format/iterator forwarding) are run on bumpalo's Box and std's Box with a drop ledger, the arena's getters and the global-allocator log. Partial: the model is deliberately thin; trait forwarding is differential-only. C17_source_frames (the ten statements of boxed.rs the model's operations stand for — Drop, new_in, into_raw, from_raw, leak, into_inner, both array/slice conversions, both downcasts — pinned as text and re-checked against /repo on every run).",
         "design_ref": "DESIGN.md §6 C17",
     },
     "C05": {
